@@ -165,7 +165,14 @@ pub fn gen_srv_case(rng: &mut Rng, profile: Profile, prop: &'static str) -> SrvC
         Ok(s) => s,
         Err(_) => return case,
     };
+    // long histories: "marathon" = few clients, each pipelining tens of requests over hundreds of
+    // steps; "churn" = dozens of short-lived clients, so that connection slots and descriptor
+    // numbers are re-used many times and capacity is reached and regained repeatedly
+    let marathon = matches!(profile, Profile::WellBehaved | Profile::Routing | Profile::Hostile | Profile::Recovery) && rng.chance(1, 60);
+    let churn = matches!(profile, Profile::Capacity | Profile::Routing) && rng.chance(1, 25);
     let max_clients = match profile {
+        _ if churn => 60,
+        _ if marathon => rng.range(1, 3),
         Profile::WellBehaved => rng.range(1, 4),
         Profile::Hostile => rng.range(2, 4),
         Profile::Routing => rng.range(2, 8),
@@ -185,6 +192,8 @@ pub fn gen_srv_case(rng: &mut Rng, profile: Profile, prop: &'static str) -> SrvC
     let shuffle = rng.chance(3, 4);
     let big_responses = rng.chance(1, 3);
     let nsteps = match profile {
+        _ if churn => rng.range(400, 1000),
+        _ if marathon => rng.range(300, 900),
         Profile::Capacity => rng.range(40, 260),
         _ => rng.range(8, 160),
     };
@@ -251,7 +260,7 @@ pub fn gen_srv_case(rng: &mut Rng, profile: Profile, prop: &'static str) -> SrvC
         let w_flush = if flush_enabled { 3 } else { 0 };
         let w_hostile = if hostiles.is_empty() {
             0
-        } else if profile == Profile::Capacity {
+        } else if profile == Profile::Capacity || churn {
             14
         } else {
             7
@@ -283,7 +292,9 @@ pub fn gen_srv_case(rng: &mut Rng, profile: Profile, prop: &'static str) -> SrvC
                     Profile::Limits => true,
                     Profile::Expect => false,
                 };
-                let nreq = if profile == Profile::Capacity {
+                let nreq = if marathon {
+                    rng.range(20, 60)
+                } else if profile == Profile::Capacity {
                     rng.range(0, 2)
                 } else if rng.chance(1, 12) {
                     // a client that pipelines many small requests (batches of more than 20 answers)
@@ -486,6 +497,17 @@ pub fn exec_srv(case: &SrvCase, flags: Flags, st: &mut Stats, drain: bool) -> Sr
         }
     }
     sim.finish_probes(st);
+    if violation.is_none() {
+        if case.steps.len() >= 300 {
+            st.probe("history_of_300_or_more_steps");
+        }
+        if case.scripts.len() >= 20 {
+            st.probe("churn_20_or_more_clients_in_one_history");
+        }
+        if sim.clients.values().any(|c| c.yielded.len() >= 20) {
+            st.probe("marathon_client_20_or_more_requests_yielded");
+        }
+    }
     let mut obs = Sig::new();
     obs.u(sim.obs.get());
     let mut streams = Vec::new();
